@@ -17,6 +17,13 @@ Round 6: the CONFIGURATION of the two components (Topo.tla `cfg`: discovery's
 / --hold-down) is a dimension of the spec; TLC draws it in Init, the histories
 carry it in their header, the components are launched with it through their
 public launchers, and the same clauses judge every configuration.
+
+Round 8: probes in flight (Topo.tla `flight`, actions Delay / Late): a probe
+that travelled over a wire reaches the controller later - after the wire was
+cut, after its sender or receiver disconnected or reconnected.  The simulator
+re-injects the last LLDP frame the wire carried into the receiving switch; TLC
+judges the response (no link of a disconnected switch comes back, only the
+probe's own wire may re-appear, nothing live is dropped).
 """
 import collections
 import concurrent.futures
@@ -31,8 +38,12 @@ SPEC = "topo"
 # TLC names a disjunct of Next after the innermost named operator it unfolds to
 DYN_ACTIONS = [("UpAny", "UpNext"), ("DownAny", "DownNext"), ("AdvanceAny", "AdvanceNext"),
                ("CutNext",), ("RestoreNext",), ("FloodNext",)]
+# (round 8) models with MaxFlight > 0: a probe is delayed / a delayed probe reaches the controller
+FLIGHT_ACTIONS = DYN_ACTIONS + [("DelayNext",), ("LateNext", "LateOne")]
 CFG_ACTIONS = [(c + a,) for c in ("Plain", "Hold", "Nofl", "Both")
-               for a in ("Up", "Down", "Advance", "Cut", "Restore", "Flood")]
+               for a in ("Up", "Down", "Advance", "Cut", "Restore", "Flood", "Held", "Late")]
+# quick: a probe in flight under two of the four classes only (MCTopo.tla NextCfgsQ)
+CFG_ACTIONS_Q = [x for x in CFG_ACTIONS if x[0] not in ("HoldHeld", "HoldLate", "NoflHeld", "NoflLate")]
 DRIVER = "harness.adapters_c19:run_scenario"
 PROBE_ADAPTER = "harness.adapters_c19:ProbeAdapter"
 
@@ -51,10 +62,13 @@ def model_check_start(ctx, quick):
           # vacuity guard holds per class: every action taken under each of them
           ("Topo dynamic under 4 configurations (2 switches, one cable): link timeout 3 (odd, short) with "
            "--no_flow / no explicit drop / eat early packets; timeout 4 with --hold-down, --no-flood, both",
-           "MC_min_cfgs.cfg", CFG_ACTIONS)]
+           "MC_min_cfgs.cfg", CFG_ACTIONS_Q)]
   if not quick:
+    jobs += [("Topo dynamic under the 4 configurations, one delayed probe in flight under each", "MC_min_cfgs_flight.cfg",
+              CFG_ACTIONS)]
+    jobs += [("Topo dynamic with one delayed probe in flight (cable + one-way wire)", "MC_one_flight.cfg", FLIGHT_ACTIONS)]
     jobs += [("Topo dynamic, link timeout 3, discovery flags flipped (cable + one-way wire)", "MC_one_short.cfg",
-              DYN_ACTIONS),
+              FLIGHT_ACTIONS),
              ("Topo dynamic, link timeout 30 (cable + one-way wire)", "MC_one_long.cfg", DYN_ACTIONS),
              ("Topo dynamic, --hold-down, durations Detect / Expire (young switches' bits free for 1 s)",
               "MC_min_hold.cfg", DYN_ACTIONS),
@@ -78,8 +92,8 @@ def model_check_start(ctx, quick):
 
 def _mc_workers(cfg, quick):
   # the small models gain nothing from many workers; several JVMs run side by side
-  if cfg == "MC_one.cfg":
-    return 8 if quick else 4
+  if cfg == "MC_min_cfgs.cfg" and quick:
+    return 8                      # (the largest model of the quick tier since round 8)
   return 2 if quick and "static" in cfg else 4
 
 
@@ -120,15 +134,15 @@ def model_check_finish(ctx, started):
 
 
 # --------------------------------------------------------------------------
-def tlc_scenarios(ctx, num, seed):
+def tlc_scenarios(ctx, num, seed, cfg="EX_sim.cfg", limit=None):
   """Environment histories simulated by TLC from Topo.tla under the reference
   controller.  Returns (scenarios for the real code, the same behaviours as
   traces whose observations are the SPEC's own responses)."""
   from harness.adapters_c19 import rec, header
-  r = tlc.run(SPEC, "MCTopo", "EX_sim.cfg", workers=1, coverage=False, simulate=dict(num=num),
+  r = tlc.run(SPEC, "MCTopo", cfg, workers=1, coverage=False, simulate=dict(num=num),
               depth=25, seed=seed, tag="C19")
   out, spec_traces = [], []
-  for i, b in enumerate(r.tagged("H")):
+  for i, b in enumerate(r.tagged("H")[:limit]):
     # wires up at the start = final phys with the Cut/Restore steps undone
     ph = set(map(tuple, b["phys"]))
     for st in reversed(b["h"]):
@@ -138,6 +152,8 @@ def tlc_scenarios(ctx, num, seed):
         ph.discard(tuple(st["args"]["l"]))
     b["phys0"] = [list(x) for x in ph]
     sc = gen.from_tlc(b, b["net"], seed * 1000 + i)
+    if cfg != "EX_sim.cfg":
+      sc["kind"] = "tlcflight"
     out.append(sc)
     tr = [header(sc)]
     for st, h in zip(sc["steps"], b["h"]):
@@ -150,7 +166,7 @@ def tlc_scenarios(ctx, num, seed):
         tr.append(rec(a=st["a"], s=st.get("s", 0), d=st.get("d", 0), lk=list(st.get("lk", [0, 0, 0, 0])),
                       adj=sorted(e["adj"]), evs=[list(x) for x in e["evs"]], nf=sorted(e["nf"])))
     spec_traces.append(tr)
-  if len(out) < num // 2:
+  if len(out) < min(num, limit or num) // 2:
     raise tlc.TLCError("scenario export produced %d behaviours" % len(out))
   return out, spec_traces
 
@@ -216,6 +232,13 @@ def classify(sc, tr, k, why):
   sig["selfloop_in_adj"] = any(l[0] == l[2] for l in ev["adj"])
   both = set(map(tuple, ev["adj"]))
   sig["oneway_in_adj"] = any((l[2], l[3], l[0], l[1]) not in both for l in both)
+  # (round 8) probes in flight
+  sig["after_delayed_probe"] = "Late" in hist
+  if ev["a"] == "Late":
+    ph, cn = _env(tr, k)
+    lk = ev["lk"]
+    sig["late_probe"] = dict(sender_connected=lk[0] in cn, wire_up=tuple(lk) in ph,
+                             link_in_adj_after=lk in ev["adj"], link_known_before=lk in tr[k - 1]["adj"])
   if ev["a"] == "SwitchUp":
     sig["reconnect"] = hist[:-1].count("SwitchUp") > 0 and \
         any(e["a"] == "SwitchDown" and e["s"] == ev["s"] for e in tr[1:k])
@@ -278,6 +301,32 @@ def run_and_validate(ctx, label, scs, shards, procs=16):
         raise core.Machinery("no %s step was run on the implementation" % a)
     if not any(e["a"] == "Flood" and sum(e["rx"]) > 0 for tr in traces for e in tr[1:]):
       raise core.Machinery("no flood probe crossed a link")
+    # (round 8) delayed probes reached the controller in every kind of environment
+    late = collections.Counter()
+    for tr in traces:
+      for k in range(1, len(tr)):
+        if tr[k]["a"] == "Delay":
+          late["Delay"] += 1
+        if tr[k]["a"] != "Late":
+          continue
+        ph, cn = _env(tr, k)
+        lk = tr[k]["lk"]
+        late["Late"] += 1
+        late["sender %sconnected, wire %s" % ("" if lk[0] in cn else "dis", "up" if tuple(lk) in ph else "cut")] += 1
+        if any(e["a"] == "SwitchUp" and e["s"] == lk[0] for e in tr[k - 2:k]):
+          late["sender reconnected just before"] += 1
+        if lk in tr[k]["adj"] and lk not in tr[k - 1]["adj"]:
+          late["link (re)appeared"] += 1
+        if tr[0]["nofl"] or tr[0]["hold"]:
+          late["under a spanning_tree option"] += 1
+        if tr[0]["to"] != 10:
+          late["non-default link timeout"] += 1
+    ctx.notes["implementation_late_probe_steps"] = dict(late)
+    for nm in ("Delay", "Late", "sender connected, wire up", "sender connected, wire cut", "sender disconnected, wire up",
+               "sender disconnected, wire cut", "sender reconnected just before", "link (re)appeared",
+               "under a spanning_tree option", "non-default link timeout"):
+      if late[nm] == 0:
+        raise core.Machinery("no delayed-probe step of kind '%s' was run on the implementation" % nm)
     # ... under every class of configuration
     cls = collections.defaultdict(collections.Counter)
     for tr in traces:
@@ -482,6 +531,58 @@ def validator_controls(ctx, spec_traces):
         tr[x[1]]["nf"] = sorted(tr[x[1]]["nf"] + [[s_, tr[0]["np"]]])
         ctl.append(("flood-host-port-blocked", tr[:x[1] + 1]))
   n_modal = len(ctl) - n_old - n_churn
+  # 11 (round 8) a delayed probe of a switch that has disconnected meanwhile brings its link back
+  def late_of_gone(tr, k):
+    return tr[k]["a"] == "Late" and tr[k]["lk"][0] not in _env(tr, k)[1] and tr[k]["lk"] not in tr[k]["adj"]
+  x = find(late_of_gone, lambda tr: True)
+  if x:
+    tr = copy.deepcopy(spec_traces[x[0]])
+    l = list(tr[x[1]]["lk"])
+    tr[x[1]]["adj"] = sorted(tr[x[1]]["adj"] + [l])
+    tr[x[1]]["evs"] = tr[x[1]]["evs"] + [[1] + l]
+    ctl.append(("adj-link-of-disconnected-switch", tr[:x[1] + 1]))
+  # 12 a delayed probe makes ANOTHER wire appear (its reverse direction, which is down)
+  def late_oneway(tr, k):
+    if tr[k]["a"] != "Late":
+      return False
+    l = tr[k]["lk"]
+    f = [l[2], l[3], l[0], l[1]]
+    ph, cn = _env(tr, k)
+    return f in tr[0]["wires"] and tuple(f) not in ph and f not in tr[k]["adj"] and l[0] in cn and l[2] in cn
+  x = find(late_oneway, lambda tr: True)
+  if x:
+    tr = copy.deepcopy(spec_traces[x[0]])
+    l = tr[x[1]]["lk"]
+    f = [l[2], l[3], l[0], l[1]]
+    tr[x[1]]["adj"] = sorted(tr[x[1]]["adj"] + [f])
+    tr[x[1]]["evs"] = tr[x[1]]["evs"] + [[1] + f]
+    ctl.append(("adj-dead-link-added", tr[:x[1] + 1]))
+  # 13 a delayed probe makes a known live link vanish
+  def late_drop(tr, k):
+    if tr[k]["a"] != "Late":
+      return None
+    ph, cn = _env(tr, k)
+    for l in tr[k]["adj"]:
+      if l in tr[k - 1]["adj"] and tuple(l) in ph and l[0] in cn and l[2] in cn:
+        return l
+    return None
+  x = find(lambda tr, k: late_drop(tr, k) is not None, lambda tr: True)
+  if x:
+    tr = copy.deepcopy(spec_traces[x[0]])
+    l = late_drop(tr, x[1])
+    tr[x[1]]["adj"].remove(l)
+    tr[x[1]]["evs"] = tr[x[1]]["evs"] + [[0] + l]
+    ctl.append(("adj-live-link-dropped", tr[:x[1] + 1]))
+  # 14 something changes when a probe is merely delayed
+  x = find(lambda tr, k: tr[k]["a"] == "Delay" and tr[k]["adj"], lambda tr: True)
+  if x:
+    tr = copy.deepcopy(spec_traces[x[0]])
+    l = tr[x[1]]["adj"].pop()
+    tr[x[1]]["evs"] = [[0] + l]
+    ctl.append(("changed-without-cause", tr[:x[1] + 1]))
+  n_flight = len(ctl) - n_old - n_churn - n_modal
+  if n_flight < 3 or not any(w == "adj-link-of-disconnected-switch" for w, _ in ctl):
+    raise tlc.TLCError("could not build the validator's delayed-probe controls: %s" % [w for w, _ in ctl])
   if n_old < 4 or n_churn < 1 or n_modal < 2:
     raise tlc.TLCError("could not build the validator's negative controls (%d + %d + %d): %s"
                        % (n_old, n_churn, n_modal, [w for w, _ in ctl]))
@@ -575,7 +676,10 @@ def run(ctx):
       "claimed for converged states with every switch connected",
       "datapath ids / port numbers are concretised from boundary pools (64-bit, 16-bit < OFPP_MAX), injective, "
       "not order preserving; port numbers 0xff00..0xffff are not used as physical ports",
-      "silent wire changes only (no PORT_STATUS)"]
+      "silent wire changes only (no PORT_STATUS)",
+      "delayed probes (Delay / Late): a late COPY of a probe that was also delivered in time reaches the controller; "
+      "if its wire was cut meanwhile and both ends are connected the link may re-appear and must then be gone "
+      "timeout + check period + 1 s after the late delivery"]
   import time
   import resource
 
@@ -656,8 +760,35 @@ def _conformance(ctx, quick, phase, tm):
            for i in range(50 if quick else 600)]
   conf += [gen.random_history(seed * 100003 + 250000 + i, steps=24, maxn=12, cfg="random")
            for i in range(6 if quick else 100)]
-  tsc, spec_traces = tlc_scenarios(ctx, 40 if quick else 600, seed + 1)
-  validator_controls(ctx, spec_traces[:200])
+  # --- (round 8) probes in flight: a probe that travelled over a wire reaches the controller later, after the
+  # wire was cut / its sender or receiver disconnected or reconnected (Topo.tla Delay / Late)
+  fl = []
+  for i in range(16):                      # the two-switch multigraphs with at least one wire, 8 environments each
+    for v in range(9):                     # (quick: 3 of the 9 environments per wiring)
+      bits = [(i >> k) & 1 for k in range(4)]
+      if any(bits) and (not quick or (v + i) % 3 == seed % 3):
+        fl.append(gen.flight_scenario(2, bits, i + 16 * v, seed=seed, variant=v,
+                                      cfg=(None if (v + i) % 2 == 0 else gen.random_cfg(crnd, 2, np2))))
+  for i in sorted(crnd.sample(range(1, 4096), 48 if quick else 1200)):
+    fl.append(gen.flight_scenario(3, [(i >> k) & 1 for k in range(12)], i, seed=seed,
+                                  cfg=(None if i % 3 else gen.random_cfg(crnd, 3, np3))))
+  fl += [gen.random_history(seed * 100003 + 300000 + i, steps=36, selfloops=(i % 5 == 0), flight=0.35,
+                            cfg=(None if i % 2 else "random")) for i in range(30 if quick else 600)]
+  fl += [gen.random_history(seed * 100003 + 350000 + i, steps=30, maxn=12, flight=0.35) for i in range(4 if quick else 60)]
+  # histories TLC simulates from the spec: under the reference controller, and under an environment biased
+  # towards probes in flight (MCTopo.tla NextRefFlight); the two JVMs run side by side
+  with concurrent.futures.ThreadPoolExecutor(max_workers=2) as ex:
+    f1 = ex.submit(tlc_scenarios, ctx, 40 if quick else 600, seed + 1)
+    f2 = ex.submit(tlc_scenarios, ctx, 16 if quick else 200, seed + 2, "EX_flight.cfg", None if quick else 1500)
+    tsc, spec_traces = f1.result()
+    tsc2, spec_traces2 = f2.result()
+  tsc += (tsc2[:40] if quick else tsc2) + fl
+  # (the validator's controls need a delayed probe of a switch that has gone meanwhile: those behaviours first)
+
+  def gone(tr):
+    return any(tr[k]["a"] == "Late" and tr[k]["lk"][0] not in _env(tr, k)[1] for k in range(1, len(tr)))
+  spec_traces2.sort(key=lambda tr: not gone(tr))
+  validator_controls(ctx, (spec_traces[:50] + spec_traces2[:40]) if quick else (spec_traces[:140] + spec_traces2[:60]))
   phase["scenarios_and_validator_controls"] = tm.take()
   run_and_validate(ctx, "implementation", static + hist + conf + tsc, shards)
   phase["run_and_validate"] = tm.take()
